@@ -943,7 +943,7 @@ class TorSim(object):
                 out.append((6.0, dict(p, pending=True)))
         # streams on a dead circuit: Tor reports them next (usually at once)
         for s in self.streams.values():
-            if s.circ_dead:
+            if s.circ_dead and not s.marked:     # (a marked one is ended by its pending close)
                 r = rnd.random()
                 if r < 0.4 and not s.succeeded:
                     act = {"a": "detach", "id": s.id, "reason": rnd.choice(["DESTROY", "TIMEOUT", "END"]), "remote": None}
